@@ -63,6 +63,11 @@ CLAIMED = {
             "immutable Freeze statics), no reusable buffer is appended to before being cleared/reset/resized, cache "
             "keys are injective in the lookup parameters, and no storage is re-entered while borrowed. Complete "
             "overwrite of length-set buffers before reads is not decided.", "4/C10"),
+    "C11": ("SHIFTGUARD (dominating zero-width guard for `BITS - n` shifts, call-site guards for private helpers) + "
+            "CALLSET + SIBLING + compile-fail witnesses for the sealed operand traits",
+            "Narrow: zero-width operands are guarded in every sink implementation, default methods are built only "
+            "from required ones, both write_bytes_aligned overrides align first, and foreign operand types cannot be "
+            "written. Bit-exactness of the shift/carry arithmetic is numerical and not decided.", "4/C11"),
 }
 
 NA = {
